@@ -18,9 +18,9 @@ SPEC = {
     # native coverage-guided campaigns (thorough tier only; wired by the driver): the semantic oracle is inside f.Fuzz,
     # seeds come from /verif/corpus/c13/<name>/ (valid files + hostile constants)
     "fuzz": [
-        {"name": "FuzzUri", "seconds": 60}, {"name": "FuzzUripost", "seconds": 60}, {"name": "FuzzRaw", "seconds": 60},
-        {"name": "FuzzHTTPJSON", "seconds": 60}, {"name": "FuzzGrpcJSON", "seconds": 60}, {"name": "FuzzScenarioYAML", "seconds": 60},
-        {"name": "FuzzScenarioHCL", "seconds": 60}, {"name": "FuzzConfig", "seconds": 60}, {"name": "FuzzParsers", "seconds": 60},
+        {"name": "FuzzUri", "seconds": 45}, {"name": "FuzzUripost", "seconds": 45}, {"name": "FuzzRaw", "seconds": 45},
+        {"name": "FuzzHTTPJSON", "seconds": 45}, {"name": "FuzzGrpcJSON", "seconds": 45}, {"name": "FuzzScenarioYAML", "seconds": 45},
+        {"name": "FuzzScenarioHCL", "seconds": 45}, {"name": "FuzzConfig", "seconds": 45}, {"name": "FuzzParsers", "seconds": 45},
     ],
     "rule": ("Eight targets. F1-F5 (uri, uripost, raw, http/json, grpc/json): ammo-file bytes = a valid ammogen file put through 1-3 byte "
              "mutations (truncate at any offset, cut a range, splice a hostile token or a piece of another valid file, replace a digit run by "
